@@ -38,6 +38,14 @@ def run(ctx):
                         unprotected=({"jku": "https://x.example/k"} if ser != "compact" and rng.random() < 0.3 else None))
             c.note = "ref-encrypted"
             cases.append(c)
+    # any spelling of the protected-header JSON, also non-ASCII member values as raw UTF-8 (what most encoders emit) or \u-escaped
+    for alg, enc in (("dir", "A128GCM"), ("A128KW", "A128CBC-HS256"), ("ECDH-ES", "A256GCM"), ("RSA-OAEP", "A192GCM")):
+        for ser in ("compact", "flat", "general"):
+            for style in (0, 1, 2, 3, 4):
+                c = E.build(rng, alg, enc, ser, b"header spelled style %d" % style, style=style,
+                            header_extra={"kid": "cl\u00e9-2024", "cty": "t\u00ebxt/\u00e9\u4e2d", "typ": "J W E"}, kn=E.key_name(alg, enc, rng))
+                c.note = "ref-encrypted"
+                cases.append(c)
     # PBES2 with explicit iteration counts (small, default-sized, above common caps) and salts, reference -> joserfc
     p2cs = [1, 1000, 4096, 16384, 16385, 20000] + ([100000, 310000] if ctx.tier == "thorough" else [])
     for alg in ("PBES2-HS256+A128KW", "PBES2-HS384+A192KW", "PBES2-HS512+A256KW"):
